@@ -1,4 +1,721 @@
-//! psihash: not built yet.
-pub fn run(args: &vh_common::Args) {
-    vh_common::unknown(args)
+//! PsiHash (C30): the confidential discovery protocol of p2panda-discovery
+//! (`PsiHashDiscoveryProtocol::alice` / `bob`, `gather_transport_infos`) against spec/PsiHash.
+//!
+//! Both roles of the real protocol run against each other over the real wire encoding of
+//! p2panda-net (`p2panda_net::codec`, length-prefixed postcard) on in-memory pipes. The harness
+//! sits in the middle of the pipes, keeps every byte that crosses, and
+//!
+//!  * searches the raw wire bytes, and the CBOR encoding of every decoded message, for the 32
+//!    bytes of every raw topic of either party (NoRawTopicOnWire on the real bytes),
+//!  * recomputes BLAKE3(topic || alice_salt_half || bob_salt_half || direction) for every topic
+//!    of the run and both directions to translate the hashed values on the wire back into the
+//!    specification's abstract `H(topic, direction)`; a value that is not one of these is
+//!    reported as "unknown" and never matches the specification,
+//!  * compares messages and both `DiscoveryResult`s with what the specification computed
+//!    (`replay`), or writes them as events for `Trace_PsiHash.tla` (`record`),
+//!  * evaluates the three C30 predicates on the implementation's own outputs.
+//!
+//! The address books are real `SqliteStore`s (in memory) filled through `AddressBookStore`.
+use std::collections::{BTreeMap, BTreeSet, HashSet};
+use std::sync::{Arc, Mutex};
+
+use p2panda_core::{SigningKey, Topic};
+use p2panda_discovery::DiscoveryResult;
+use p2panda_discovery::psi_hash::{Config, PsiHashDiscoveryProtocol, PsiHashMessage};
+use p2panda_discovery::test_utils::TestSubscription;
+use p2panda_discovery::traits::DiscoveryProtocol;
+use p2panda_net::codec::{Codec, into_codec_sink, into_codec_stream};
+use p2panda_store::address_book::AddressBookStore;
+use p2panda_store::address_book::test_utils::{TestNodeId, TestNodeInfo};
+use p2panda_store::{SqliteStore, tx_unwrap};
+use rand::SeedableRng;
+use rand_chacha::ChaCha20Rng;
+use tokio::io::{AsyncReadExt, AsyncWriteExt};
+use tokio_util::bytes::BytesMut;
+use tokio_util::codec::Decoder;
+use vh_common::{Args, Outcome, Rng, TraceWriter, Value, json, read_ndjson, unknown};
+
+type Msg = PsiHashMessage<TestNodeId, TestNodeInfo>;
+type Res = DiscoveryResult<TestNodeId, TestNodeInfo>;
+
+pub fn run(args: &Args) {
+    match args.mode.as_str() {
+        "replay" => replay(args),
+        "record" => record(args),
+        _ => unknown(args),
+    }
+}
+
+/// One address book entry as the specification describes it.
+#[derive(Clone, Debug)]
+struct Entry {
+    node: String,
+    topics: BTreeSet<String>,
+    tr: bool,
+    stale: bool,
+}
+
+/// A configuration of the protocol in abstract names.
+#[derive(Clone, Debug)]
+struct Case {
+    topics_a: BTreeSet<String>,
+    topics_b: BTreeSet<String>,
+    restrict_a: bool,
+    restrict_b: bool,
+    book_a: Vec<Entry>,
+    book_b: Vec<Entry>,
+    alice: String,
+    bob: String,
+}
+
+/// Abstract view of one message on the wire.
+#[derive(Clone, Debug, PartialEq)]
+struct WireMsg {
+    kind: String,
+    from: String,
+    /// (topic name or "unknown", direction byte)
+    hashes: BTreeSet<(String, u8)>,
+    nodes: BTreeSet<String>,
+}
+
+struct RunOutput {
+    wire: Vec<WireMsg>,
+    common_a: BTreeSet<String>,
+    common_b: BTreeSet<String>,
+    infos_a: BTreeSet<String>,
+    infos_b: BTreeSet<String>,
+    /// findings about real bytes: (signature, detail)
+    byte_findings: Vec<(String, String)>,
+    wire_bytes: usize,
+}
+
+/// Names <-> real values of one run.
+struct Names {
+    topics: BTreeMap<String, Topic>,
+    nodes: BTreeMap<String, TestNodeId>,
+}
+
+impl Names {
+    fn topic_name(&self, t: &Topic) -> String {
+        self.topics
+            .iter()
+            .find(|(_, v)| *v == t)
+            .map(|(k, _)| k.clone())
+            .unwrap_or_else(|| "unknown".into())
+    }
+
+    fn node_name(&self, n: &TestNodeId) -> String {
+        self.nodes
+            .iter()
+            .find(|(_, v)| *v == n)
+            .map(|(k, _)| k.clone())
+            .unwrap_or_else(|| "unknown".into())
+    }
+}
+
+fn contains(haystack: &[u8], needle: &[u8]) -> bool {
+    haystack.windows(needle.len()).any(|w| w == needle)
+}
+
+/// Independent reading of psi_hash.rs:342-369.
+fn spec_hash(topic: &Topic, alice_half: &[u8; 32], bob_half: &[u8; 32], direction: u8) -> [u8; 32] {
+    let mut h = blake3::Hasher::new();
+    h.update(topic.as_bytes());
+    h.update(alice_half);
+    h.update(bob_half);
+    h.update(&[direction]);
+    *h.finalize().as_bytes()
+}
+
+async fn fill_store(store: &SqliteStore, book: &[Entry], names: &Names, rng: &mut ChaCha20Rng) {
+    for e in book {
+        let id = names.nodes[&e.node];
+        let mut info = TestNodeInfo::new(id);
+        if e.tr {
+            info = info.with_random_address(rng);
+        }
+        if e.stale {
+            info = info.stale();
+        }
+        let topics: HashSet<Topic> = e.topics.iter().map(|t| names.topics[t]).collect();
+        tx_unwrap!(store, {
+            store.insert_node_info(info).await.expect("insert node info");
+            <SqliteStore as AddressBookStore<TestNodeId, TestNodeInfo>>::set_topics(store, id, topics)
+                .await
+                .expect("set topics");
+        });
+    }
+}
+
+/// Runs both roles of the real protocol against each other and returns what was observed.
+async fn run_protocol(case: &Case, names: &Names, seed: u64) -> Result<RunOutput, String> {
+    let mut rng = ChaCha20Rng::seed_from_u64(seed);
+    let alice_store = SqliteStore::temporary().await;
+    let bob_store = SqliteStore::temporary().await;
+    fill_store(&alice_store, &case.book_a, names, &mut rng).await;
+    fill_store(&bob_store, &case.book_b, names, &mut rng).await;
+
+    let alice_id = names.nodes[&case.alice];
+    let bob_id = names.nodes[&case.bob];
+    let alice_subscription = TestSubscription {
+        topics: case.topics_a.iter().map(|t| names.topics[t]).collect(),
+    };
+    let bob_subscription = TestSubscription {
+        topics: case.topics_b.iter().map(|t| names.topics[t]).collect(),
+    };
+    let alice_protocol = PsiHashDiscoveryProtocol::<_, _, TestNodeId, TestNodeInfo>::with_config(
+        alice_store,
+        alice_subscription,
+        alice_id,
+        bob_id,
+        Config { share_nodes_with_common_topics: case.restrict_a },
+    );
+    let bob_protocol = PsiHashDiscoveryProtocol::<_, _, TestNodeId, TestNodeInfo>::with_config(
+        bob_store,
+        bob_subscription,
+        bob_id,
+        alice_id,
+        Config { share_nodes_with_common_topics: case.restrict_b },
+    );
+
+    // alice <-> relay <-> bob; the relay keeps all bytes, in the order it moved them
+    let (alice_io, relay_alice) = tokio::io::duplex(1 << 20);
+    let (bob_io, relay_bob) = tokio::io::duplex(1 << 20);
+    let captured: Arc<Mutex<Vec<(bool, Vec<u8>)>>> = Arc::new(Mutex::new(Vec::new()));
+    let (mut ra_read, mut ra_write) = tokio::io::split(relay_alice);
+    let (mut rb_read, mut rb_write) = tokio::io::split(relay_bob);
+    let cap = captured.clone();
+    let a_to_b = tokio::spawn(async move {
+        let mut buf = vec![0u8; 64 * 1024];
+        loop {
+            match ra_read.read(&mut buf).await {
+                Ok(0) | Err(_) => break,
+                Ok(n) => {
+                    cap.lock().unwrap().push((true, buf[..n].to_vec()));
+                    if rb_write.write_all(&buf[..n]).await.is_err() {
+                        break;
+                    }
+                }
+            }
+        }
+        let _ = rb_write.shutdown().await;
+    });
+    let cap = captured.clone();
+    let b_to_a = tokio::spawn(async move {
+        let mut buf = vec![0u8; 64 * 1024];
+        loop {
+            match rb_read.read(&mut buf).await {
+                Ok(0) | Err(_) => break,
+                Ok(n) => {
+                    cap.lock().unwrap().push((false, buf[..n].to_vec()));
+                    if ra_write.write_all(&buf[..n]).await.is_err() {
+                        break;
+                    }
+                }
+            }
+        }
+        let _ = ra_write.shutdown().await;
+    });
+
+    let (alice_read, alice_write) = tokio::io::split(alice_io);
+    let (bob_read, bob_write) = tokio::io::split(bob_io);
+    let bob_task = tokio::spawn(async move {
+        let mut tx = Box::pin(into_codec_sink::<Msg, _>(bob_write));
+        let mut rx = into_codec_stream::<Msg, _>(bob_read);
+        bob_protocol.bob(&mut tx, &mut rx).await.map_err(|e| e.to_string())
+    });
+    let alice_task = tokio::spawn(async move {
+        let mut tx = Box::pin(into_codec_sink::<Msg, _>(alice_write));
+        let mut rx = into_codec_stream::<Msg, _>(alice_read);
+        alice_protocol.alice(&mut tx, &mut rx).await.map_err(|e| e.to_string())
+    });
+    let alice_result: Res = alice_task
+        .await
+        .map_err(|e| format!("alice() panicked: {e}"))?
+        .map_err(|e| format!("alice() failed: {e}"))?;
+    let bob_result: Res = bob_task
+        .await
+        .map_err(|e| format!("bob() panicked: {e}"))?
+        .map_err(|e| format!("bob() failed: {e}"))?;
+    let _ = a_to_b.await;
+    let _ = b_to_a.await;
+
+    // ---- the bytes
+    let chunks = captured.lock().unwrap().clone();
+    let mut byte_findings = Vec::new();
+    let mut stream_a = BytesMut::new();
+    let mut stream_b = BytesMut::new();
+    let mut codec_a = Codec::<Msg>::new();
+    let mut codec_b = Codec::<Msg>::new();
+    let mut raw_a = Vec::new();
+    let mut raw_b = Vec::new();
+    // messages in the order in which their last byte crossed the relay
+    let mut messages: Vec<(bool, Msg)> = Vec::new();
+    for (from_alice, bytes) in &chunks {
+        let (stream, codec, raw) = if *from_alice {
+            (&mut stream_a, &mut codec_a, &mut raw_a)
+        } else {
+            (&mut stream_b, &mut codec_b, &mut raw_b)
+        };
+        raw.extend_from_slice(bytes);
+        stream.extend_from_slice(bytes);
+        loop {
+            match codec.decode(stream) {
+                Ok(Some(m)) => messages.push((*from_alice, m)),
+                Ok(None) => break,
+                Err(e) => return Err(format!("wire bytes do not decode: {e}")),
+            }
+        }
+    }
+    if !stream_a.is_empty() || !stream_b.is_empty() {
+        return Err("trailing bytes on the wire".into());
+    }
+    let all_topics: BTreeSet<&String> = case.topics_a.iter().chain(case.topics_b.iter()).collect();
+    for name in &all_topics {
+        let raw_topic = names.topics[*name].as_bytes().to_vec();
+        if contains(&raw_a, &raw_topic) || contains(&raw_b, &raw_topic) {
+            byte_findings.push((
+                "raw-topic-on-wire".into(),
+                format!("the 32 bytes of raw topic {name} occur in the postcard wire bytes"),
+            ));
+        }
+    }
+    for (i, (_, m)) in messages.iter().enumerate() {
+        let mut cbor = Vec::new();
+        ciborium::ser::into_writer(m, &mut cbor).map_err(|e| format!("CBOR encoding failed: {e}"))?;
+        let standalone = postcard::to_allocvec(m).map_err(|e| format!("postcard encoding failed: {e}"))?;
+        for name in &all_topics {
+            let raw_topic = names.topics[*name].as_bytes().to_vec();
+            if contains(&cbor, &raw_topic) || contains(&standalone, &raw_topic) {
+                byte_findings.push((
+                    "raw-topic-on-wire".into(),
+                    format!("the 32 bytes of raw topic {name} occur in the encoding of message {}", i + 1),
+                ));
+            }
+        }
+    }
+
+    // ---- abstraction of the messages
+    let mut alice_half = [0u8; 32];
+    let mut bob_half = [0u8; 32];
+    for (_, m) in &messages {
+        match m {
+            PsiHashMessage::AliceSaltHalf { alice_salt_half } => alice_half = *alice_salt_half,
+            PsiHashMessage::BobSaltHalfAndHashedData { bob_salt_half, .. } => bob_half = *bob_salt_half,
+            _ => {}
+        }
+    }
+    let mut dictionary: BTreeMap<[u8; 32], (String, u8)> = BTreeMap::new();
+    for name in &all_topics {
+        for d in [0u8, 1u8] {
+            let h = spec_hash(&names.topics[*name], &alice_half, &bob_half, d);
+            if let Some(other) = dictionary.insert(h, ((*name).clone(), d)) {
+                byte_findings.push((
+                    "hash-collision".into(),
+                    format!("H({name},{d}) = H({},{})", other.0, other.1),
+                ));
+            }
+        }
+    }
+    for name in &all_topics {
+        if dictionary.contains_key(names.topics[*name].as_bytes()) {
+            byte_findings.push(("hash-equals-raw-topic".into(), format!("a hash value equals raw topic {name}")));
+        }
+    }
+    let abstract_hashes = |set: &HashSet<Topic>| -> BTreeSet<(String, u8)> {
+        set.iter()
+            .map(|h| dictionary.get(h.as_bytes()).cloned().unwrap_or(("unknown".into(), 255)))
+            .collect()
+    };
+    let mut wire = Vec::new();
+    for (from_alice, m) in &messages {
+        let from = if *from_alice { case.alice.clone() } else { case.bob.clone() };
+        let w = match m {
+            PsiHashMessage::AliceSaltHalf { .. } => WireMsg {
+                kind: "AliceSaltHalf".into(),
+                from,
+                hashes: BTreeSet::new(),
+                nodes: BTreeSet::new(),
+            },
+            PsiHashMessage::BobSaltHalfAndHashedData { topics_for_alice, .. } => WireMsg {
+                kind: "BobSaltHalfAndHashedData".into(),
+                from,
+                hashes: abstract_hashes(topics_for_alice),
+                nodes: BTreeSet::new(),
+            },
+            PsiHashMessage::AliceHashedData { topics_for_bob } => WireMsg {
+                kind: "AliceHashedData".into(),
+                from,
+                hashes: abstract_hashes(topics_for_bob),
+                nodes: BTreeSet::new(),
+            },
+            PsiHashMessage::Nodes { transport_infos } => WireMsg {
+                kind: "Nodes".into(),
+                from,
+                hashes: BTreeSet::new(),
+                nodes: transport_infos.keys().map(|k| names.node_name(k)).collect(),
+            },
+        };
+        wire.push(w);
+    }
+    if alice_result.remote_node_id != bob_id || bob_result.remote_node_id != alice_id {
+        byte_findings.push(("wrong-remote-id".into(), "DiscoveryResult names the wrong remote node".into()));
+    }
+    Ok(RunOutput {
+        wire,
+        common_a: alice_result.topics.iter().map(|t| names.topic_name(t)).collect(),
+        common_b: bob_result.topics.iter().map(|t| names.topic_name(t)).collect(),
+        infos_a: alice_result.transport_infos.keys().map(|k| names.node_name(k)).collect(),
+        infos_b: bob_result.transport_infos.keys().map(|k| names.node_name(k)).collect(),
+        byte_findings,
+        wire_bytes: raw_a.len() + raw_b.len(),
+    })
+}
+
+/// The three C30 predicates on the implementation's own outputs: (signature, detail).
+fn check_property(case: &Case, o: &RunOutput) -> Vec<(String, String)> {
+    let mut out = Vec::new();
+    let common: BTreeSet<String> = case.topics_a.intersection(&case.topics_b).cloned().collect();
+    if o.common_a != common || o.common_b != common {
+        out.push((
+            "wrong-intersection".into(),
+            format!(
+                "topics {:?} / {:?}: intersection {common:?}, alice got {:?}, bob got {:?}",
+                case.topics_a, case.topics_b, o.common_a, o.common_b
+            ),
+        ));
+    }
+    for (sig, detail) in &o.byte_findings {
+        out.push((sig.clone(), detail.clone()));
+    }
+    for m in &o.wire {
+        if m.hashes.iter().any(|(t, _)| t == "unknown") {
+            out.push((
+                "unexpected-value-on-wire".into(),
+                format!("message {} carries a value that is not the salted hash of a topic of its sender", m.kind),
+            ));
+        }
+    }
+    let nodes_msgs: Vec<&WireMsg> = o.wire.iter().filter(|m| m.kind == "Nodes").collect();
+    for m in nodes_msgs {
+        let (book, restricted, me) = if m.from == case.alice {
+            (&case.book_a, case.restrict_a, &case.alice)
+        } else {
+            (&case.book_b, case.restrict_b, &case.bob)
+        };
+        if restricted {
+            let allowed: BTreeSet<String> = book
+                .iter()
+                .filter(|e| e.topics.intersection(&common).next().is_some())
+                .map(|e| e.node.clone())
+                .chain([me.clone()])
+                .collect();
+            if !m.nodes.is_subset(&allowed) {
+                out.push((
+                    "shared-node-without-common-topic".into(),
+                    format!(
+                        "{} (restricted sharing, common topics {common:?}) sent node infos of {:?}, allowed {allowed:?}",
+                        m.from, m.nodes
+                    ),
+                ));
+            }
+        }
+    }
+    out
+}
+
+fn set_of(v: &Value) -> BTreeSet<String> {
+    v.as_array()
+        .map(|a| a.iter().filter_map(|x| x.as_str().map(String::from)).collect())
+        .unwrap_or_default()
+}
+
+fn book_of(v: &Value) -> Vec<Entry> {
+    v.as_array()
+        .map(|a| {
+            a.iter()
+                .map(|e| Entry {
+                    node: e["n"].as_str().unwrap_or("?").to_string(),
+                    topics: set_of(&e["topics"]),
+                    tr: e["tr"].as_bool().unwrap_or(false),
+                    stale: e["stale"].as_bool().unwrap_or(false),
+                })
+                .collect()
+        })
+        .unwrap_or_default()
+}
+
+fn fresh_names(rng: &mut Rng, topics: &BTreeSet<String>, nodes: &BTreeSet<String>) -> Names {
+    let mut t = BTreeMap::new();
+    for name in topics {
+        let bytes: [u8; 32] = rng.bytes(32).try_into().expect("32 bytes");
+        t.insert(name.clone(), Topic::from(bytes));
+    }
+    let mut n = BTreeMap::new();
+    for name in nodes {
+        n.insert(name.clone(), SigningKey::generate().verifying_key());
+    }
+    Names { topics: t, nodes: n }
+}
+
+fn runtime() -> tokio::runtime::Runtime {
+    tokio::runtime::Builder::new_multi_thread()
+        .worker_threads(2)
+        .enable_all()
+        .build()
+        .expect("runtime")
+}
+
+fn replay(args: &Args) {
+    let behaviours = read_ndjson(args.input.as_ref().expect("--in"));
+    let mut out = Outcome::new(
+        args,
+        "distinct = behaviours with different (topic sets, flags, address books); counted only if at least one party has a topic and one address book has an entry with transport info",
+    );
+    let mut rng = Rng::new(args.seed);
+    let rt = runtime();
+    for b in &behaviours {
+        out.eval();
+        let case = Case {
+            topics_a: set_of(&b["topicsA"]),
+            topics_b: set_of(&b["topicsB"]),
+            restrict_a: b["restrictA"].as_bool().unwrap_or(false),
+            restrict_b: b["restrictB"].as_bool().unwrap_or(false),
+            book_a: book_of(&b["bookA"]),
+            book_b: book_of(&b["bookB"]),
+            alice: b["alice"].as_str().unwrap_or("n1").to_string(),
+            bob: b["bob"].as_str().unwrap_or("n2").to_string(),
+        };
+        let mut topic_names: BTreeSet<String> = case.topics_a.union(&case.topics_b).cloned().collect();
+        let mut node_names: BTreeSet<String> = [case.alice.clone(), case.bob.clone()].into_iter().collect();
+        for e in case.book_a.iter().chain(case.book_b.iter()) {
+            topic_names.extend(e.topics.iter().cloned());
+            node_names.insert(e.node.clone());
+        }
+        let names = fresh_names(&mut rng, &topic_names, &node_names);
+        let nontrivial = (!case.topics_a.is_empty() || !case.topics_b.is_empty())
+            && case.book_a.iter().chain(case.book_b.iter()).any(|e| e.tr);
+        if nontrivial {
+            out.mark_distinct(format!(
+                "{:?}{:?}{}{}{:?}{:?}",
+                case.topics_a, case.topics_b, case.restrict_a, case.restrict_b, case.book_a, case.book_b
+            ));
+        }
+        if !case.topics_a.is_disjoint(&case.topics_b) {
+            out.count("common-topics");
+        }
+        let seed = rng.next_u64();
+        let result = rt.block_on(async {
+            match tokio::spawn({
+                let case = case.clone();
+                let names = Names { topics: names.topics.clone(), nodes: names.nodes.clone() };
+                async move { run_protocol(&case, &names, seed).await }
+            })
+            .await
+            {
+                Ok(r) => r,
+                Err(e) => Err(format!("panic: {e}")),
+            }
+        });
+        let o = match result {
+            Ok(o) => o,
+            Err(e) => {
+                out.violation("C30", "protocol-run-failed", e, b.clone());
+                continue;
+            }
+        };
+        out.count_by("wire-bytes", o.wire_bytes as u64);
+        let mut seen = BTreeSet::new();
+        for (sig, detail) in check_property(&case, &o) {
+            if seen.insert(sig.clone()) {
+                out.violation("C30", &sig, detail, b.clone());
+            }
+        }
+        // implementation = specification, message by message
+        let want_wire: Vec<WireMsg> = b["wire"]
+            .as_array()
+            .map(|a| {
+                a.iter()
+                    .map(|m| WireMsg {
+                        kind: m["type"].as_str().unwrap_or("?").to_string(),
+                        from: m["from"].as_str().unwrap_or("?").to_string(),
+                        hashes: m["hashes"]
+                            .as_array()
+                            .map(|hs| {
+                                hs.iter()
+                                    .map(|h| (h["t"].as_str().unwrap_or("?").to_string(), h["d"].as_u64().unwrap_or(99) as u8))
+                                    .collect()
+                            })
+                            .unwrap_or_default(),
+                        nodes: set_of(&m["nodes"]),
+                    })
+                    .collect()
+            })
+            .unwrap_or_default();
+        let mut diff = None;
+        if want_wire.len() != o.wire.len() {
+            diff = Some(format!("specification has {} messages, implementation sent {}", want_wire.len(), o.wire.len()));
+        } else {
+            for (i, (w, g)) in want_wire.iter().zip(o.wire.iter()).enumerate() {
+                if w != g {
+                    diff = Some(format!("message {}: specification {w:?}, implementation {g:?}", i + 1));
+                    break;
+                }
+            }
+        }
+        if diff.is_none() {
+            for (what, want, got) in [
+                ("alice's topics", set_of(&b["commonA"]), o.common_a.clone()),
+                ("bob's topics", set_of(&b["commonB"]), o.common_b.clone()),
+                ("alice's transport infos", set_of(&b["infosA"]), o.infos_a.clone()),
+                ("bob's transport infos", set_of(&b["infosB"]), o.infos_b.clone()),
+            ] {
+                if want != got {
+                    diff = Some(format!("{what}: specification {want:?}, implementation {got:?}"));
+                    break;
+                }
+            }
+        }
+        match diff {
+            Some(d) => out.violation("C30", "diverged", format!("implementation and specification disagree: {d}"), b.clone()),
+            None => out.sample(json!({"topicsA": case.topics_a, "topicsB": case.topics_b, "common": o.common_a, "nodes_sent_by_bob": o.infos_a, "nodes_sent_by_alice": o.infos_b})),
+        }
+    }
+    out.write(args);
+}
+
+// ------------------------------------------------------------------------------------------
+// record: random topic sets and address books on the real protocol
+
+fn entry_json(e: Option<&Entry>) -> Value {
+    match e {
+        None => json!({"present": false, "topics": [], "tr": false, "stale": false}),
+        Some(e) => json!({"present": true, "topics": e.topics, "tr": e.tr, "stale": e.stale}),
+    }
+}
+
+fn book_json(book: &[Entry], nodes: &[String]) -> Value {
+    let mut m = serde_json::Map::new();
+    for n in nodes {
+        m.insert(n.clone(), entry_json(book.iter().find(|e| &e.node == n)));
+    }
+    Value::Object(m)
+}
+
+fn hashes_json(m: &WireMsg) -> Value {
+    Value::Array(m.hashes.iter().map(|(t, d)| json!({"t": t, "d": d})).collect())
+}
+
+fn record(args: &Args) {
+    let mut out = Outcome::new(
+        args,
+        "distinct = recorded runs with different (topic sets, flags, address books); counted only if at least one party has a topic and one address book has an entry with transport info",
+    );
+    let mut tw = TraceWriter::create(args.out.as_ref().expect("--out"));
+    let mut rng = Rng::new(args.seed);
+    let n = if args.n == 0 { 50 } else { args.n };
+    // the universes of Trace_PsiHash's trace.cfg
+    let topic_universe: Vec<String> = (1..=12).map(|i| format!("t{i}")).collect();
+    let node_universe: Vec<String> = (1..=6).map(|i| format!("n{i}")).collect();
+    let rt = runtime();
+    for run in 0..n {
+        out.eval();
+        // varying overlap: a pool of 1..=12 topics, each party takes each with its own probability
+        let pool = rng.range(1, 12) as usize;
+        let pa = rng.range(0, 4);
+        let pb = rng.range(0, 4);
+        let mut pick = |p: u64, rng: &mut Rng| -> BTreeSet<String> {
+            topic_universe[..pool].iter().filter(|_| rng.chance(p, 4)).cloned().collect()
+        };
+        let topics_a = pick(pa, &mut rng);
+        let topics_b = pick(pb, &mut rng);
+        let mut book = |rng: &mut Rng| -> Vec<Entry> {
+            let mut b = Vec::new();
+            for node in &node_universe {
+                if rng.chance(1, 4) {
+                    continue;
+                }
+                let p = rng.range(0, 3);
+                b.push(Entry {
+                    node: node.clone(),
+                    topics: topic_universe[..pool].iter().filter(|_| rng.chance(p, 6)).cloned().collect(),
+                    tr: !rng.chance(1, 5),
+                    stale: rng.chance(1, 5),
+                });
+            }
+            b
+        };
+        let case = Case {
+            topics_a,
+            topics_b,
+            restrict_a: rng.chance(1, 2),
+            restrict_b: rng.chance(1, 2),
+            book_a: book(&mut rng),
+            book_b: book(&mut rng),
+            alice: "n1".into(),
+            bob: "n2".into(),
+        };
+        let names = fresh_names(
+            &mut rng,
+            &topic_universe.iter().cloned().collect(),
+            &node_universe.iter().cloned().collect(),
+        );
+        let nontrivial = (!case.topics_a.is_empty() || !case.topics_b.is_empty())
+            && case.book_a.iter().chain(case.book_b.iter()).any(|e| e.tr);
+        if nontrivial {
+            out.mark_distinct(format!("{case:?}"));
+        }
+        if !case.topics_a.is_disjoint(&case.topics_b) {
+            out.count("common-topics");
+        }
+        let seed = rng.next_u64();
+        let case_json = json!({"seed": args.seed, "run": run, "topicsA": case.topics_a, "topicsB": case.topics_b,
+            "restrictA": case.restrict_a, "restrictB": case.restrict_b,
+            "bookA": book_json(&case.book_a, &node_universe), "bookB": book_json(&case.book_b, &node_universe)});
+        let result = rt.block_on(async {
+            match tokio::spawn({
+                let case = case.clone();
+                let names = Names { topics: names.topics.clone(), nodes: names.nodes.clone() };
+                async move { run_protocol(&case, &names, seed).await }
+            })
+            .await
+            {
+                Ok(r) => r,
+                Err(e) => Err(format!("panic: {e}")),
+            }
+        });
+        let o = match result {
+            Ok(o) => o,
+            Err(e) => {
+                out.violation("C30", "protocol-run-failed", e, case_json);
+                continue;
+            }
+        };
+        out.count_by("wire-bytes", o.wire_bytes as u64);
+        let mut seen = BTreeSet::new();
+        for (sig, detail) in check_property(&case, &o) {
+            if seen.insert(sig.clone()) {
+                out.violation("C30", &sig, detail, case_json.clone());
+            }
+        }
+        tw.event(json!({"ev": "Reset", "run": run, "topicsA": case.topics_a, "topicsB": case.topics_b,
+            "restrictA": case.restrict_a, "restrictB": case.restrict_b}));
+        let kinds: Vec<&str> = o.wire.iter().map(|m| m.kind.as_str()).collect();
+        if kinds != ["AliceSaltHalf", "BobSaltHalfAndHashedData", "AliceHashedData", "Nodes", "Nodes"] {
+            // logged as it is: the trace specification will not accept it
+            tw.event(json!({"ev": "UnexpectedMessages", "kinds": kinds}));
+            continue;
+        }
+        tw.event(json!({"ev": "AliceSendSaltHalf", "from": o.wire[0].from}));
+        tw.event(json!({"ev": "BobSendSaltAndHashes", "from": o.wire[1].from, "hashes": hashes_json(&o.wire[1])}));
+        tw.event(json!({"ev": "AliceSendHashes", "from": o.wire[2].from, "hashes": hashes_json(&o.wire[2])}));
+        tw.event(json!({"ev": "BobSendNodes", "from": o.wire[3].from, "book": book_json(&case.book_b, &node_universe), "nodes": o.wire[3].nodes}));
+        tw.event(json!({"ev": "AliceReceiveNodes", "infosA": o.infos_a}));
+        tw.event(json!({"ev": "AliceSendNodes", "from": o.wire[4].from, "book": book_json(&case.book_a, &node_universe), "nodes": o.wire[4].nodes, "commonA": o.common_a}));
+        tw.event(json!({"ev": "BobReceiveNodes", "infosB": o.infos_b, "commonB": o.common_b}));
+        out.sample(case_json);
+    }
+    let (events, runs) = tw.finish();
+    out.set_trace(events, runs);
+    out.write(args);
 }
